@@ -8,7 +8,7 @@
    assigns to the text x" (oracle); VInt z carries the exact integer. *)
 From Coq Require Import List NArith ZArith Bool String.
 Import ListNotations.
-Require Import PyStr Regex NumLit Regexes Num NumSpec NumProofs.
+Require Import PyStr Regex NumLit Regexes Num NumSpec NumProofs HeaderLine Tables SectionParse BuildItemProofs.
 Open Scope string_scope. Open Scope N_scope.
 
 (* every text that is not a plain decimal literal is kept verbatim: 15_9, dates, inf, nan,
@@ -34,6 +34,34 @@ Proof. exact num_float. Qed.
 Theorem C08_guard_current : rx_numeric_literal = guard_ast /\ has_numeric_literal_guard = true.
 Proof. exact guard_is_current. Qed.
 
+(* which values reach num() at all (SectionParser.metadata / params / curves):
+   items named API or UWI in any case keep their text outside ~Parameter, ~Curves values
+   (API codes) are never converted, ~Parameter values always go through num *)
+Theorem C08_api_uwi : forall v k h,
+  k <> KCurves -> k <> KParameter -> is_number_string (h_name h) = true ->
+  i_value (build_item v k h) = VStr (field_for_value v k h).
+Proof. exact build_item_api_uwi. Qed.
+
+Theorem C08_api_uwi_any_case : forall n,
+  is_number_string n = true <-> upper n = s2l "API" \/ upper n = s2l "UWI".
+Proof. exact is_number_string_cases. Qed.
+
+Theorem C08_curves_raw : forall v h, i_value (build_item v KCurves h) = VStr (h_value h).
+Proof. exact build_item_curves_raw. Qed.
+
+Theorem C08_parameter_num : forall v h, i_value (build_item v KParameter h) = num (h_value h).
+Proof. exact build_item_param_num. Qed.
+
+Theorem C08_other_num : forall v k h,
+  k <> KCurves -> k <> KParameter -> is_number_string (h_name h) = false ->
+  i_value (build_item v k h) = num (field_for_value v k h).
+Proof. exact build_item_other_num. Qed.
+
+Example C08_ex_uwi : i_value (build_item V20 KWell (mkhl (s2l "Uwi") [] (s2l "0012345") (s2l "id"))) = VStr (s2l "0012345").
+Proof. vm_compute. reflexivity. Qed.
+Example C08_ex_api_param : i_value (build_item V20 KParameter (mkhl (s2l "API") [] (s2l "0012") (s2l "x"))) = VInt 12.
+Proof. vm_compute. reflexivity. Qed.
+
 (* non-vacuity and sanity: concrete instances evaluated by the kernel *)
 Example C08_ex_underscore : num (s2l "15_9") = VStr (s2l "15_9").
 Proof. vm_compute. reflexivity. Qed.
@@ -57,3 +85,8 @@ Print Assumptions C08_verbatim.
 Print Assumptions C08_integer.
 Print Assumptions C08_float.
 Print Assumptions C08_guard_current.
+Print Assumptions C08_api_uwi.
+Print Assumptions C08_api_uwi_any_case.
+Print Assumptions C08_curves_raw.
+Print Assumptions C08_parameter_num.
+Print Assumptions C08_other_num.
